@@ -7,7 +7,14 @@
 //! used column and a systematic family of (prefix, start, direction) queries are
 //! compared with the model on every backend.
 
-use crate::model::*;
+use crate::{
+    model::*,
+    proc::{
+        self,
+        OpKind,
+        crumb,
+    },
+};
 use fuel_core::{
     database::database_description::{
         DatabaseDescription,
@@ -58,7 +65,6 @@ use vcommon::{
     },
     read_replay,
     rng_for,
-    run_shards,
     serde_json::{
         Value as Json,
         json,
@@ -198,23 +204,59 @@ fn typed_iter_keys<D: Desc11>(
     })
 }
 
-/// an owned view (snapshot) of a store
-struct OwnedView<D: Desc11>(Box<dyn IterableStore<Column = D::Column>>);
+fn fam_code(fam: &str) -> u8 {
+    match fam {
+        "memory" => proc::FAM_MEMORY,
+        "rocksdb" => proc::FAM_ROCKSDB,
+        _ => proc::FAM_HISTORICAL,
+    }
+}
+
+fn policy_code(p: Option<StateRewindPolicy>) -> u8 {
+    match p {
+        None => 0,
+        Some(StateRewindPolicy::NoRewind) => 1,
+        Some(StateRewindPolicy::RewindFullRange) => 2,
+        Some(StateRewindPolicy::RewindRange { size }) => 10 + size.get().min(200) as u8,
+    }
+}
+
+fn dir_code(d: IterDirection) -> u8 {
+    match d {
+        IterDirection::Forward => 1,
+        IterDirection::Reverse => 2,
+    }
+}
+
+/// an owned view (snapshot) of a store; `1`/`2`: breadcrumb codes of the backend
+struct OwnedView<D: Desc11>(Box<dyn IterableStore<Column = D::Column>>, u8, u8);
 
 impl<D: Desc11> Kv for OwnedView<D> {
     fn get(&self, col: Col, key: &[u8]) -> GetRes {
+        if self.1 != proc::FAM_MEMORY {
+            crumb(OpKind::Read, self.1, self.2, col.id, 0, Some(key), None);
+        }
         typed_get::<D>(self.0.as_ref(), col, key)
     }
 
     fn reads(&self, col: Col, key: &[u8], offset: usize, buf_len: usize) -> Result<Result<Reads, String>, String> {
+        if self.1 != proc::FAM_MEMORY {
+            crumb(OpKind::Read, self.1, self.2, col.id, 0, Some(key), None);
+        }
         typed_reads::<D>(self.0.as_ref(), col, key, offset, buf_len)
     }
 
     fn iter_kv(&self, col: Col, prefix: Option<&[u8]>, start: Option<&[u8]>, dir: IterDirection) -> IterKv {
+        if self.1 != proc::FAM_MEMORY {
+            crumb(OpKind::IterStore, self.1, self.2, col.id, dir_code(dir), prefix, start);
+        }
         typed_iter_kv::<D>(self.0.as_ref(), col, prefix, start, dir)
     }
 
     fn iter_keys(&self, col: Col, prefix: Option<&[u8]>, start: Option<&[u8]>, dir: IterDirection) -> IterKeys {
+        if self.1 != proc::FAM_MEMORY {
+            crumb(OpKind::IterStoreKeys, self.1, self.2, col.id, dir_code(dir), prefix, start);
+        }
         typed_iter_keys::<D>(self.0.as_ref(), col, prefix, start, dir)
     }
 }
@@ -424,6 +466,9 @@ fn open_inner<D: Desc11>(
     } else {
         Some(TempDir::new_in(scratch.expect("scratch dir")).map_err(|e| format!("tempdir: {e}"))?)
     };
+    if fam != "memory" {
+        crumb(OpKind::Open, fam_code(fam), policy_code(policy), 0, 0, None, None);
+    }
     let store = open_store::<D>(fam, policy, dir.as_ref().map(|d| d.path()), cached)?;
     Ok(Box::new(InnerImpl::<D> {
         fam,
@@ -444,20 +489,33 @@ impl<D: Desc11> InnerImpl<D> {
     }
 }
 
+impl<D: Desc11> InnerImpl<D> {
+    /// breadcrumb before a call into a RocksDB-based store
+    fn mark(&self, op: OpKind, col: u32, dir: u8, a: Option<&[u8]>, b: Option<&[u8]>) {
+        if self.fam != "memory" {
+            crumb(op, fam_code(self.fam), policy_code(self.policy), col, dir, a, b);
+        }
+    }
+}
+
 impl<D: Desc11> Kv for InnerImpl<D> {
     fn get(&self, col: Col, key: &[u8]) -> GetRes {
+        self.mark(OpKind::Read, col.id, 0, Some(key), None);
         typed_get::<D>(self.iterable(), col, key)
     }
 
     fn reads(&self, col: Col, key: &[u8], offset: usize, buf_len: usize) -> Result<Result<Reads, String>, String> {
+        self.mark(OpKind::Read, col.id, 0, Some(key), None);
         typed_reads::<D>(self.iterable(), col, key, offset, buf_len)
     }
 
     fn iter_kv(&self, col: Col, prefix: Option<&[u8]>, start: Option<&[u8]>, dir: IterDirection) -> IterKv {
+        self.mark(OpKind::IterStore, col.id, dir_code(dir), prefix, start);
         typed_iter_kv::<D>(self.iterable(), col, prefix, start, dir)
     }
 
     fn iter_keys(&self, col: Col, prefix: Option<&[u8]>, start: Option<&[u8]>, dir: IterDirection) -> IterKeys {
+        self.mark(OpKind::IterStoreKeys, col.id, dir_code(dir), prefix, start);
         typed_iter_keys::<D>(self.iterable(), col, prefix, start, dir)
     }
 }
@@ -466,6 +524,7 @@ impl<D: Desc11> Inner for InnerImpl<D> {
     fn commit(&self, height: Option<u32>, commit: &Commit) -> Result<Result<(), String>, String> {
         let changes = commit.to_storage_changes();
         let height = height.map(BlockHeight::from);
+        self.mark(OpKind::Commit, 0, 0, None, None);
         catch(|| {
             let r = match self.store.as_ref().expect("open") {
                 Store::Mem(s) => TransactableStorage::<BlockHeight>::commit_changes(s, height, changes),
@@ -477,18 +536,20 @@ impl<D: Desc11> Inner for InnerImpl<D> {
     }
 
     fn snapshot(&self) -> Result<Box<dyn Kv>, String> {
+        self.mark(OpKind::LatestView, 0, 0, None, None);
         let view: Box<dyn IterableStore<Column = D::Column>> = match self.store.as_ref().expect("open") {
             Store::Mem(s) => Box::new(TransactableStorage::<BlockHeight>::latest_view(s).map_err(|e| format!("{e}"))?),
             Store::Rocks(s) => Box::new(s.create_snapshot()),
             Store::Hist(s) => Box::new(TransactableStorage::<BlockHeight>::latest_view(s).map_err(|e| format!("{e}"))?),
         };
-        Ok(Box::new(OwnedView::<D>(view)))
+        Ok(Box::new(OwnedView::<D>(view, fam_code(self.fam), policy_code(self.policy))))
     }
 
     fn reopen(&mut self) -> Result<(), String> {
         if self.fam == "memory" {
             return Ok(());
         }
+        self.mark(OpKind::Reopen, 0, 0, None, None);
         self.store = None; // closes RocksDB (no views are held at this point)
         self.store = Some(open_store::<D>(
             self.fam,
@@ -1470,6 +1531,7 @@ fn fmt_diffs(diffs: &[(u32, Bytes, Option<Bytes>, Option<Bytes>)]) -> String {
 #[allow(clippy::too_many_arguments)]
 fn run_history(args: &Args, report: &Report, ks: &KeySpace, descs: &[DescInfo], shard: usize, shard_seed: u64, iteration: u64, p: &Params, selftest: u32) {
     let mut rng = rng_for(shard_seed, &[iteration]);
+    proc::crumb_history(iteration);
     // two of three histories over the on-chain description, one over off-chain
     let desc = &descs[if (iteration as usize + shard) % 3 == 2 { 1 } else { 0 }];
     let cols = desc.cols.clone();
@@ -1543,6 +1605,12 @@ fn run_history(args: &Args, report: &Report, ks: &KeySpace, descs: &[DescInfo], 
 
     for step in 0..p.commits {
         let is_last = step + 1 == p.commits;
+        proc::crumb_step(step);
+        if selftest == 9 && shard == 0 && step == 5 {
+            // selftest: the process dies inside a "backend call"
+            crumb(OpKind::IterStore, proc::FAM_ROCKSDB, 0, cols[0].id, 1, Some(&[0x11]), None);
+            std::process::abort();
+        }
         let dup = conflict_history && is_last;
         let commit = gen_commit(&mut rng, ks, &cols, &hot, dup);
         let with_height = !chance(&mut rng, 15);
@@ -1792,6 +1860,8 @@ fn run_history(args: &Args, report: &Report, ks: &KeySpace, descs: &[DescInfo], 
     ctx.local.flush(report);
 }
 
+/// Runs in a child process (`--child <shard>`, see `proc`): one shard, or the
+/// one history of a replay.
 pub fn run(args: &Args, report: &Report) {
     let selftest = selftest_mode(args);
     let ks = KeySpace::new();
@@ -1811,25 +1881,29 @@ pub fn run(args: &Args, report: &Report) {
         p.short_forward_prefix = v;
     }
     p.probe_undefined_empty = args.extra.get("probe-undefined").map(|v| v == "2").unwrap_or(false);
-    let shards: usize = args.extra.get("shards").and_then(|s| s.parse().ok()).unwrap_or(16);
     let per_shard: u64 = args
         .extra
         .get("per-shard")
         .and_then(|s| s.parse().ok())
         .unwrap_or(args.by_tier(2, 8));
-    let args2 = args.clone();
-    let report2 = report.clone();
-    run_shards(report, args, shards, move |shard, shard_seed| {
-        let ks = KeySpace::new();
+    let shard = proc::child_shard(args).unwrap_or(0);
+    proc::run_child_shard(report, args, shard, |shard, shard_seed| {
         let descs = [desc_info::<OnChain>(), desc_info::<OffChain>()];
         for it in 0..per_shard {
-            run_history(&args2, &report2, &ks, &descs, shard, shard_seed, it, &p, selftest);
+            run_history(args, report, &ks, &descs, shard, shard_seed, it, &p, selftest);
         }
     });
     finish(args, report, selftest, false);
 }
 
-fn finish(args: &Args, report: &Report, selftest: u32, replay: bool) {
+/// child: writes the partial result; parent: thresholds, self-test check and
+/// the merged result
+pub fn finish(args: &Args, report: &Report, selftest: u32, replay: bool) {
+    if proc::child_shard(args).is_some() {
+        proc::child_finish(args);
+        report.finish(args, "exploration", "", false, &[]);
+        return;
+    }
     if !replay {
         let t = |q: u64, th: u64| args.by_tier(q, th);
         report.require("histories", t(24, 100));
@@ -1869,6 +1943,7 @@ fn finish(args: &Args, report: &Report, selftest: u32, replay: bool) {
             "on columns with a RocksDB fixed-prefix extractor (32 bytes) keys have at least 32 bytes; prefixes shorter than 32 bytes (including the empty one) are judged there in every shape: prefix-only forward and reverse, and together with a start key (>= 32 bytes and shorter), through both APIs (the forward prefix-only shape can be switched off with --short-forward-prefix 0: before its repair it read out of bounds inside RocksDB)",
             "RocksDB opened with DatabaseConfig::config_for_tests (lazy columns), with and without a 6 MiB cache",
             "a panic inside commit_changes / iter_store / get of a backend is reported as a violation (the backend did not deliver the contents the others hold)",
+            "the histories run in child processes (one per shard); a child killed by SIGSEGV/SIGABRT/SIGBUS/SIGILL/SIGFPE is a violation attributed by the breadcrumb written before every backend call, any other abnormal child exit is inconclusive",
         ],
     );
 }
